@@ -825,20 +825,21 @@ func (s *Scanner) tokSEMICOLON() token.Token {
 // and thus relative to the file set.
 func (s *Scanner) Scan() (pos token.Pos, tok token.Token, lit string) {
 scanAgain:
+	// determine token value
+	insertSemi := false
+	if s.unitVal != "" { // number with unit: the unit ends at the current offset (before any white space)
+		insertSemi = true
+		pos = s.file.Pos(s.offset - len(s.unitVal))
+		tok, lit = token.UNIT, s.unitVal
+		s.unitVal = ""
+		goto done
+	}
+
 	s.skipWhitespace()
 
 	// current token start
 	pos = s.file.Pos(s.offset)
 
-	// determine token value
-	insertSemi := false
-	if s.unitVal != "" { // number with unit
-		insertSemi = true
-		pos -= token.Pos(len(s.unitVal))
-		tok, lit = token.UNIT, s.unitVal
-		s.unitVal = ""
-		goto done
-	}
 	switch ch := s.ch; {
 	case isLetter(ch):
 		lit = s.scanIdentifier()
